@@ -38,45 +38,63 @@ theorem topo_cons {known : List String} {n : Node} {g : Graph} (h : TopoOrdered 
 
 /-! ### totality -/
 
-theorem exec_total {plan : Plan} {R : Int × Int}
-    (hedge : ∀ c d, (plan.edge c d).Total) :
+theorem mapE_congr {α β : Type} {f g : α → Except Err β} : ∀ {l : List α}, (∀ a ∈ l, f a = g a) → mapE f l = mapE g l
+  | [], _ => rfl
+  | a :: l, h => by
+    simp only [mapE, h a (by simp), mapE_congr (l := l) (fun x hx => h x (by simp [hx]))]
+
+theorem override_typed {stored : List (String × List Chunk)} {P : String → List Chunk → Prop}
+    (hs : ∀ d s, lookup d stored = some s → P d s) :
+    ∀ {ds : List String} {outs : List (List Chunk)}, (∀ p ∈ ds.zip outs, P p.1 p.2) →
+      ∀ p ∈ ds.zip (override stored ds outs), P p.1 p.2
+  | [], _, _, p, hp => by simp at hp
+  | _ :: _, [], _, p, hp => by simp [override] at hp
+  | d :: ds, o :: os, h, p, hp => by
+    simp only [override, List.zip_cons_cons, List.mem_cons] at hp
+    rcases hp with rfl | hp
+    · cases hl : lookup d stored with
+      | none => simpa [hl] using h (d, o) (by simp)
+      | some s => simpa [hl] using hs d s hl
+    · exact override_typed hs (fun q hq => h q (by simp [hq])) p hp
+
+/-- **Totality on typed streams.**  Every data type `d` has a stream type `P d`; the sources and whatever storage
+holds have their types; every node is total on typed inputs (`NodeTotalOn`, which includes its edge transports)
+and produces typed outputs.  Then `exec` succeeds on a topologically ordered graph, with typed results. -/
+theorem exec_total_typed {plan : Plan} {R : Int × Int} {P : String → List Chunk → Prop}
+    (hsP : ∀ d s, lookup d plan.stored = some s → P d s) :
     ∀ {g : Graph} {env : Env},
       TopoOrdered (keys env) g →
-      (∀ n ∈ g, ChunkHom n.kernel ∧ n.kernel.Total ∧ n.aligner.Total n.deps.length) →
-      EnvOK R env → StoredOK plan.stored R g (wenvOf env) → ∃ env', exec plan g env = .ok env'
-  | [], env, _, _, _, _ => ⟨env, rfl⟩
-  | n :: g, env, htopo, hg, henv, hst => by
-    obtain ⟨hd, hdeps, -, -, hni, hno, htl⟩ := topo_cons htopo
-    obtain ⟨hk, hkt, hat⟩ := hg n (by simp)
-    -- the dependencies arrive
-    obtain ⟨ins, hins⟩ : ∃ ins, mapE (fetchDep plan n.name env) n.deps = .ok ins := by
-      apply mapE_total
+      (∀ n ∈ g, ChunkHom n.kernel ∧ NodeTotalOn (plan.edge n.name) R P n) →
+      EnvOK R env → (∀ p ∈ env, P p.1 p.2) → StoredOK plan.stored R g (wenvOf env) →
+      ∃ env', exec plan g env = .ok env' ∧ ∀ p ∈ env', P p.1 p.2
+  | [], env, _, _, _, hP, _ => ⟨env, rfl, hP⟩
+  | n :: g, env, htopo, hg, henv, hP, hst => by
+    obtain ⟨hd, hdeps, -, -, hni, -, htl⟩ := topo_cons htopo
+    obtain ⟨hk, hnt⟩ := hg n (by simp)
+    -- the streams of the dependencies, as an assignment
+    let σ : String → List Chunk := fun d => match lookup d env with
+      | some s => s
+      | none => []
+    have hσ : ∀ d ∈ n.deps, lookup d env = some (σ d) := by
       intro d hdm
       obtain ⟨s, hs⟩ := lookup_isSome_of_mem (l := env) (hdeps d hdm)
-      have hmem := lookup_mem hs
-      obtain ⟨out, hout⟩ := hedge n.name d s (henv (d, s) hmem).1
-      exact ⟨out, by simp [fetchDep, hs, hout]⟩
-    obtain ⟨-, hin⟩ := fetch_rel henv n.name hins
-    have hl : ins.length = n.deps.length := mapE_length hins
-    have hne : ins ≠ [] := by
-      intro h0; subst h0
-      exact hd (List.length_eq_zero_iff.mp (by simpa using hl.symm))
-    -- alignment and computation succeed
-    obtain ⟨al, hal⟩ := hat R ins hl hne hin
-    obtain ⟨hal1, hal2⟩ := n.aligner.spec hne hin hal
-    have hallen : al.length = n.kernel.nIn := by
-      have : (al.map rows).length = (ins.map rows).length := by rw [hal2]
-      simp at this; omega
-    obtain ⟨outs, houts⟩ := hkt R al hallen hal1
-    have hstep : n.step ins = .ok outs := by simp [Node.step, hal, houts]
-    obtain ⟨ho1, -, -⟩ := hk R al outs hallen hal1 houts
-    have hlen : outs.length = n.provides.length := by omega
+      simp [σ, hs]
+    obtain ⟨ins, outs, hmap, hstep, hlen, hPout⟩ := hnt σ (by
+      intro d hdm
+      have hm := lookup_mem (hσ d hdm)
+      exact ⟨(henv _ hm).1, (henv _ hm).2, hP _ hm⟩)
+    have hins : mapE (fetchDep plan n.name env) n.deps = .ok ins := by
+      rw [← hmap]
+      apply mapE_congr
+      intro d hdm
+      simp [fetchDep, hσ d hdm]
     have hnode : execNode plan n env = .ok (env ++ n.provides.zip (override plan.stored n.provides outs)) := by
       simp [execNode, hins, hstep, hlen]
-    -- the invariant carries over
     obtain ⟨wouts, hw, hrel⟩ := execNode_rel hk hni hd henv hnode
     simp only [StoredOK, hw] at hst
     obtain ⟨hw1, henv1⟩ := hrel hst.1
+    have hl : ins.length = n.deps.length := mapE_length hins
+    obtain ⟨-, hin⟩ := fetch_rel henv n.name hins
     obtain ⟨-, -, o3⟩ := override_rows (stored := plan.stored) (R := R) hlen rfl
       (by intro s hs; exact (node_hom hk hni hd hl hin hstep).2.1 s hs)
       (by
@@ -90,9 +108,70 @@ theorem exec_total {plan : Plan} {R : Int × Int}
         rw [this, ← hweq]; exact hst.1)
     have hkeys : keys (env ++ n.provides.zip (override plan.stored n.provides outs)) = keys env ++ n.provides := by
       rw [keys_append, keys_zip o3]
-    obtain ⟨env', he⟩ := exec_total hedge (g := g) (by rw [hkeys]; exact htl) (fun m hm => hg m (by simp [hm])) henv1
-      (by rw [hw1]; exact hst.2)
-    exact ⟨env', by simp [exec, hnode, he]⟩
+    have hP1 : ∀ p ∈ env ++ n.provides.zip (override plan.stored n.provides outs), P p.1 p.2 := by
+      intro p hp
+      simp only [List.mem_append] at hp
+      rcases hp with hp | hp
+      · exact hP p hp
+      · exact override_typed hsP hPout p hp
+    obtain ⟨env', he, hP'⟩ := exec_total_typed hsP (g := g) (by rw [hkeys]; exact htl)
+      (fun m hm => hg m (by simp [hm])) henv1 hP1 (by rw [hw1]; exact hst.2)
+    exact ⟨env', by simp [exec, hnode, he], hP'⟩
+
+/-- a node is total on typed inputs as soon as every edge transport is total from the dependency's type to some
+`E d`, and the node's step is total on `E`-typed inputs with `P`-typed outputs -/
+theorem nodeTotalOn_of {edge : String → Transport} {R : Int × Int} {P E : String → List Chunk → Prop} {n : Node}
+    (hedge : ∀ d ∈ n.deps, (edge d).TotalOn (P d) (E d))
+    (hstep : ∀ ins : List (List Chunk), ins.length = n.deps.length →
+      (∀ p ∈ n.deps.zip ins, LawAbiding p.2 ∧ span p.2 = some R ∧ E p.1 p.2) →
+      ∃ outs, n.step ins = .ok outs ∧ outs.length = n.provides.length ∧ ∀ p ∈ n.provides.zip outs, P p.1 p.2) :
+    NodeTotalOn edge R P n := by
+  intro σ hσ
+  have key : ∀ (ds : List String), (∀ d ∈ ds, d ∈ n.deps) →
+      ∃ ins, mapE (fun d => (edge d).run (σ d)) ds = .ok ins ∧ ins.length = ds.length ∧
+        ∀ p ∈ ds.zip ins, LawAbiding p.2 ∧ span p.2 = some R ∧ E p.1 p.2 := by
+    intro ds
+    induction ds with
+    | nil => intro _; exact ⟨[], rfl, rfl, by simp⟩
+    | cons d ds ih =>
+      intro hsub
+      obtain ⟨hl, hsp, hp⟩ := hσ d (hsub d (by simp))
+      obtain ⟨o, ho, hE⟩ := hedge d (hsub d (by simp)) (σ d) hl hp
+      obtain ⟨rest, hr, hlen, hall⟩ := ih (fun x hx => hsub x (by simp [hx]))
+      refine ⟨o :: rest, by simp [mapE, ho, hr], by simp [hlen], ?_⟩
+      intro p hp'
+      simp only [List.zip_cons_cons, List.mem_cons] at hp'
+      rcases hp' with rfl | hp'
+      · exact ⟨(edge d).law hl ho, by rw [(edge d).range hl ho]; exact hsp, hE⟩
+      · exact hall p hp'
+  obtain ⟨ins, hm, hlen, hall⟩ := key n.deps (fun _ h => h)
+  obtain ⟨outs, hs, hol, hP⟩ := hstep ins hlen hall
+  exact ⟨ins, outs, hm, hs, hol, hP⟩
+
+/-- the Boolean form of the storage hypothesis -/
+theorem storedAt_of_B {stored : List (String × List Chunk)} {R : Int × Int} :
+    ∀ {ds : List String} {rs : List (List Row)}, storedAtB stored R ds rs = true → StoredAt stored R ds rs
+  | [], _, _ => by simp [StoredAt]
+  | _ :: _, [], _ => by simp [StoredAt]
+  | d :: ds, r :: rs, h => by
+    simp only [storedAtB, Bool.and_eq_true] at h
+    refine ⟨?_, storedAt_of_B h.2⟩
+    intro s hs
+    have h1 := h.1
+    simp only [hs, Bool.and_eq_true, beq_iff_eq] at h1
+    exact ⟨h1.1.1, h1.1.2, h1.2⟩
+
+theorem storedOK_of_B {stored : List (String × List Chunk)} {R : Int × Int} :
+    ∀ {g : Graph} {w : WEnv}, storedOKB stored R g w = true → StoredOK stored R g w
+  | [], _, _ => trivial
+  | n :: g, w, h => by
+    simp only [storedOKB] at h
+    simp only [StoredOK]
+    split
+    · trivial
+    · rename_i outs hw
+      simp only [hw, Bool.and_eq_true] at h
+      exact ⟨storedAt_of_B h.1, storedOK_of_B h.2⟩
 
 /-! ### storage filled by an earlier run -/
 
